@@ -37,6 +37,7 @@ def run(ctx):
     r84(ctx)
     r85(ctx)
     r86(ctx)
+    r89_event_type_identity(ctx)
     from ..statrules import shared_class_state
     shared_class_state(ctx, 'R8.8', sorted(c for c, ci in ctx.prog.classes.items() if ci.module.name == 'pubsub'),
                        'a listener subscribed to one producer is notified by every producer (and removing it from one removes it from all)')
@@ -468,3 +469,28 @@ def r86(ctx):
     ctx.ob('R8.6', f'{P}.fire', ok, sample=f'fire builds {short(ctor[0]) if ctor else "?"}')
     if not ok:
         ctx.finding('R8.6', f'{P}.fire', prog.cls(P), f1, 'fire does not pass (event_type, content, check) to Event in that order', where=f'{P}.fire')
+
+
+def r89_event_type_identity(ctx):
+    """R8.9: the keys of the listener map are EventType objects compared by identity"""
+    prog = ctx.prog
+    ctx.rule('R8.9', 'EventType objects key the listener map by identity: no __eq__ / __hash__ that could make two distinct event types equal')
+    n = 0
+    for c in prog.subclasses('EventType', strict=False):
+        ci = prog.classes[c]
+        for m in ('__eq__', '__hash__'):
+            fn = ci.methods.get(m)
+            n += 1
+            ok = fn is None
+            if fn is not None:
+                # an identity-based definition is harmless
+                b = body_of(fn)
+                t = unparse(b[0]) if len(b) == 1 else ''
+                ok = t in ('return self is other', 'return id(self)', 'return object.__hash__(self)', 'return super().__hash__()', 'return super().__eq__(other)',
+                           'return NotImplemented')
+            ctx.ob('R8.9', f'{c}.{m}', ok, sample=f'{c}.{m}: {"not defined (identity)" if fn is None else short(fn, 60)}')
+            if not ok:
+                ctx.finding('R8.9', f'{c}.{m}', ci, fn,
+                            f'{c} defines {m}: two distinct event types that compare equal share one entry of the listener map, so an event reaches listeners of another '
+                            'type, a second subscription is swallowed as a duplicate and unsubscribing one type unsubscribes the other', where=f'{c}.{m}')
+    ctx.floor('R8.9', 'EventType comparison slots examined', n, 2)
